@@ -85,16 +85,19 @@ def pairs_of(ws):
     return ["".join(ws[i:i + 2]) for i in range(0, len(ws), 2)]
 
 
-def check_variant(sp, v, do_even, do_faithful):
+def check_variant(sp, v, do_even, do_faithful, container="list"):
     """Returns (evaluations, [(clause, detail)], sample)."""
     M, L = sp["M"], sp["L"]
     n = 0
     bad = []
     sample = None
     try:
-        G, names = cc.build_group(M, v["route"], v["style"], v["inf"])
+        G, names = cc.build_group(M, v["route"], v["style"], v["inf"], container)
     except Exception as e:
         return 1, [("raised:CoxeterGroup", "%s: %s" % (type(e).__name__, e))], None
+    if v["route"] == "diagram" and not np.array_equal(np.asarray(G.coxeter_matrix), np.array(cc.lib_matrix(M, v["inf"]))):
+        return 1, [("constructor", "diagram handed over as a %s: coxeter_matrix %r, diagram says %r"
+                    % (container, np.asarray(G.coxeter_matrix).tolist(), cc.lib_matrix(M, v["inf"])))], None
     if list(G.ordered_gens) != names:
         return 1, [("generator_names", "ordered_gens %r, expected %r" % (list(G.ordered_gens), names))], None
     J = lambda w: "".join(names[g - 1] for g in w)
@@ -195,13 +198,15 @@ def check_matrix(args):
     out = []
     sample = None
     for vi, v in enumerate(VARIANTS[:n_variants]):
-        n, bad, s = check_variant(sp, v, do_even, do_faithful=(vi == 0))
+        container = cc.DIAGRAM_CONTAINERS[(m + vi) % len(cc.DIAGRAM_CONTAINERS)]
+        n, bad, s = check_variant(sp, v, do_even, do_faithful=(vi == 0), container=container)
         if any(c.endswith("not_produced") for c, _ in bad):
             do_even = False     # do not wait for the same construction again under the next variant
         tot += n
         sample = sample or s
         for clause, detail in bad[:3]:
-            out.append((dict(matrix=sp["M"], route=v["route"], style=v["style"], inf=v["inf"]), clause, detail))
+            out.append((dict(matrix=sp["M"], route=v["route"] + ("(%s)" % container if v["route"] == "diagram" else ""),
+                             style=v["style"], inf=v["inf"]), clause, detail))
     return m, tot, out, sample
 
 
@@ -276,7 +281,8 @@ def run(run, replay=None):
         "rank 3: all 343 labelled matrices; rank 4: 11 named groups (A4 B4 D4 F4 H4, affine, compact hyperbolic) + %s; "
         "rank 5: seeded random sample (labels weighted towards small ones)"
         % ("seeded random sample" if quick else "all matrices up to relabelling + a deeper random sample"),
-        "every pair of generators is listed in a diagram (label 2 included): the constructor requires it",
+        "every pair of generators is listed in a diagram (label 2 included): the constructor requires it; the diagram is handed over as "
+        "list / tuple / generator / zip / iterator / map in rotation (documented as 'an iterable of tuples')",
         "even-length variant observed through enumerate_words / accepts on two-letter labels; not built for rank 5 (cost)",
         "an automaton must be returned within 60 s of CPU time, its even-length variant within 3 x the measured time of the base automaton + 20 s",
         "shipped files cox237/334/3334/535: the assignment of labels to pairs of letters is read off the file (relabelling freedom)",
